@@ -1453,15 +1453,22 @@ struct array : static_array<T, D, Alloc> {
 		}
 		this->destroy();
 		this->deallocate();
-		this->layout_mutable() = typename array::layout_t{extensions};
+		this->layout_mutable() = typename array::layout_t(typename array::extensions_type{});  // stay empty (and valid) if the allocation throws
 		this->base_            = this->static_::array_alloc::allocate(
             static_cast<typename multi::allocator_traits<typename array::allocator_type>::size_type>(
                 typename array::layout_t{extensions}.num_elements()
             ),
             this->data_elements()  // used as hint
         );
+		this->layout_mutable() = typename array::layout_t{extensions};
 		if constexpr(!(std::is_trivially_default_constructible_v<typename array::element_type> || multi::force_element_trivial_default_construction<typename array::element_type>)) {
-			adl_alloc_uninitialized_value_construct_n(this->alloc(), this->base_, this->num_elements());
+			try {
+				adl_alloc_uninitialized_value_construct_n(this->alloc(), this->base_, this->num_elements());
+			} catch(...) {  // the construction rolled itself back: give the block back and stay empty
+				this->deallocate();
+				this->layout_mutable() = typename array::layout_t(typename array::extensions_type{});
+				throw;
+			}
 		}
 		return std::move(*this);
 	}
